@@ -103,3 +103,66 @@ def execute(case) -> Outcome:
             "reused-after-fault" if (fired and reused) else ("fault-fired" if fired else "fault-not-reached")]
     tags += ["out-" + ",".join((o["exc"]["name"] if o["exc"] else str(o["status"])) for o in outs)]
     return Outcome(vio[:4], tags, fired, info={"outcomes": [(o["exc"]["name"] if o["exc"] else o["status"]) for o in outs]})
+
+
+# ----------------------------------------------------------------------------- layer 'cancel-with-sibling-writing'
+# The victim shares its connection (HTTP/2) or its pool (HTTP/1.1) with a sibling whose upload started first; the victim is cancelled at EVERY one
+# of its suspension points (task / scope style, asyncio and trio); afterwards the pool is probed with further requests on the same connections.
+# Oracle (C01): every delivered response - callers' and probes' - answers its own token, and what the client wrote on every connection still
+# decodes (HPACK state in step, well-formed HTTP/1.1 request sequence).
+
+CANCEL_KINDS = ["direct-h2", "tunnel-h2", "prior-h2", "socks-auth-tls-h2", "direct-h1", "forward"]
+
+
+def cancel_cases(tier):
+    from . import c05
+
+    kinds = CANCEL_KINDS if tier == "thorough" else CANCEL_KINDS[:2] + ["direct-h1"]
+    out = []
+    for kind in kinds:
+        for shape in ("get", "post2"):
+            for runtime in (None, "trio"):
+                _, points = c05.base_counts(kind, "sibling-first", shape, runtime)
+                for k in points:
+                    for style in (("scope",) if runtime == "trio" else ("task", "scope")):
+                        out.append({"kind": kind, "context": "sibling-first", "shape": shape, "runtime": runtime, "cancel": {"style": style, "at": k}})
+    return out
+
+
+def execute_cancel(case) -> Outcome:
+    from . import c05
+    from .conc import own_write_parked
+
+    run, world, callers = c05.run_case(case)
+    c0 = callers[0]
+    trigger, phase = c05.classify_trigger(case, world, callers)
+    base = dict(conn=case["kind"], trigger=trigger, site=phase,
+                in_shield=bool(c0.in_shield_at_delivery if c0.delivery_site is not None else c0.in_shield_at_cancel), own_write_parked=own_write_parked(c0))
+    if case.get("runtime") == "trio":
+        base["runtime"] = "trio"
+    what = (("[trio] " if case.get("runtime") == "trio" else "") + f"{case['kind']}: a sibling upload is under way, the victim ({case['shape']}) is cancelled "
+            f"({case['cancel']['style']}) at its suspension {case['cancel']['at']} ({phase})")
+    vio = []
+    for c in callers:
+        for i, o in enumerate(c.results):
+            if o.get("exc") is None and o.get("status") is not None:
+                tok = c.program[i]["tok"]
+                xt = [v for n, v in o["headers"] if n.lower() == b"x-tok"]
+                if xt != [tok.encode()]:
+                    vio.append(V(P, "wrong-response", f"{what}: caller {c.id} asked for {tok} and got status {o['status']} x-tok {xt}", **base))
+    for i, status, xt in run.result.get("probe_wrong", []):
+        vio.append(V(P, "wrong-response", f"{what}: a later request for probe{i} on the same pool got status {status} x-tok {xt} - the answer to another request", **base))
+    for p in world.pipes:
+        leaf = p.peer.leaf()
+        for msg in (getattr(getattr(leaf, "h2", None), "errors", None) or []):
+            vio.append(V(P, "wire-desync", f"{what}: the HTTP/2 peer cannot decode what the client sent on pipe {p.id} afterwards: {msg}", **base))
+        for msg in getattr(leaf, "wire_violations", []):
+            vio.append(V(P, "reused-unfinished-connection", f"{what}: pipe {p.id}: {msg}", **base))
+        for msg in getattr(leaf, "parse_errors", []):
+            vio.append(V(P, "wire-desync", f"{what}: the bytes written on pipe {p.id} do not parse as a sequence of requests: {msg}", **base))
+    fired = c0.cancel_fired_at is not None
+    tags = [case["kind"], "shape-" + case["shape"], "runtime-" + (case.get("runtime") or "asyncio"), "cancel-" + case["cancel"]["style"],
+            "site-" + str(phase), "fired" if fired else "not-reached"]
+    if base["own_write_parked"]:
+        tags.append("own-write-in-flight")
+    return Outcome(vio[:4], tags, fired, info={"probe": run.result.get("probe"), "site": phase})
